@@ -284,26 +284,31 @@ where
     {
         let future = self.client.channel.send_parts(metadata, self.headers, body);
 
-        let response = match self.client.timeout {
-            Some(duration) => tokio::time::timeout(duration, future)
+        // The timeout bounds the whole exchange, not only the wait for the response
+        // head: the link can also go quiet while the body of the reply is in flight.
+        let exchange = async move {
+            let response = future.await.map_err(Status::connection)?;
+            let (head, body) = response.into_parts();
+
+            if head.status == StatusCode::OK {
+                return <<Svc as Handler<Msg>>::Reply>::from_body(Body::new(body)).await;
+            }
+
+            let buffer = crate::utils::to_aligned(body)
                 .await
-                .map_err(|_| Status::timeout())?
-                .map_err(Status::connection)?,
-            None => future.await.map_err(Status::connection)?,
+                .map_err(|e| Status::internal(e.message()))?;
+            let status =
+                DataView::<Status>::using(buffer).map_err(|_| Status::invalid())?;
+            Err(status
+                .deserialize_view()
+                .unwrap_or_else(|_| Status::invalid()))
         };
 
-        let (head, body) = response.into_parts();
-
-        if head.status == StatusCode::OK {
-            return <<Svc as Handler<Msg>>::Reply>::from_body(Body::new(body)).await;
+        match self.client.timeout {
+            Some(duration) => tokio::time::timeout(duration, exchange)
+                .await
+                .map_err(|_| Status::timeout())?,
+            None => exchange.await,
         }
-
-        let buffer = crate::utils::to_aligned(body)
-            .await
-            .map_err(|e| Status::internal(e.message()))?;
-        let status = DataView::<Status>::using(buffer).map_err(|_| Status::invalid())?;
-        Err(status
-            .deserialize_view()
-            .unwrap_or_else(|_| Status::invalid()))
     }
 }
